@@ -30,6 +30,7 @@ import numpy as np  # noqa: E402
 from ase import Atoms  # noqa: E402
 import matid.geometry as G  # noqa: E402
 from matid.symmetry.symmetryanalyzer import SymmetryAnalyzer  # noqa: E402
+from matid.utils.exceptions import MatIDError  # noqa: E402
 
 
 def lst(a):
@@ -53,7 +54,12 @@ def run_one(c):
     at = atoms_of(lay)
     before = (at.get_positions().copy(), at.get_cell().array.copy(), at.get_atomic_numbers().copy(), at.get_pbc().copy())
     out = {"id": c["id"]}
-    a = SymmetryAnalyzer(at, symmetry_tol=tol, min_2d_thickness=ms)
+    try:
+        a = SymmetryAnalyzer(at, symmetry_tol=tol, min_2d_thickness=ms)
+    except ValueError as e:
+        out["outcome"] = "ValueError"
+        out["message"] = str(e)[:200]
+        return out
     pbc = np.array(lay["pbc"], dtype=bool)
     i_pbc = int(np.argwhere(pbc == False)[0][0])  # noqa: E712
     out["i_pbc"] = i_pbc
@@ -66,8 +72,36 @@ def run_one(c):
     out["analyzed_positions_same"] = bool(np.array_equal(an.get_positions(), at.get_positions()))
     out["analyzed_numbers_same"] = bool(np.array_equal(an.get_atomic_numbers(), at.get_atomic_numbers()))
     out["analyzed_pbc"] = [bool(x) for x in an.get_pbc()]
+    # ---- intermediate data on a second analyzer object -------------------------------------------------
+    if c.get("trace", True):
+        try:
+            b = SymmetryAnalyzer(atoms_of(lay), symmetry_tol=tol, min_2d_thickness=ms)
+            ds = b.get_symmetry_dataset()
+            out["transformation_matrix"] = lst(ds.transformation_matrix)
+            out["std_lattice"] = lst(ds.std_lattice)
+            spg = b._get_spglib_conventional_system()
+            letters = b._get_spglib_wyckoff_letters_conventional()
+            ideal, ideal_w = b._find_wyckoff_ground_state(int(ds.number), letters, spg)
+            ideal = ideal.copy()
+            out["ideal_cell"] = lst(ideal.get_cell())
+            out["ideal_positions"] = lst(ideal.get_positions())
+            out["ideal_numbers"] = [int(z) for z in ideal.get_atomic_numbers()]
+            ideal.set_pbc(True)
+            com = G.get_center_of_mass(ideal)
+            center = 0.5 * np.sum(ideal.get_cell(), axis=0)
+            out["translation_full"] = lst(center - com)
+        except Exception as e:
+            out["trace_error"] = type(e).__name__ + ": " + str(e)[:200]
     # ---- public results ------------------------------------------------------------------------------
-    conv = a.get_conventional_system()
+    try:
+        conv = a.get_conventional_system()
+    except MatIDError as e:
+        if "Could not detect the non-periodic direction" in str(e):
+            out["outcome"] = "MatIDError"
+            out["message"] = str(e)[:200]
+            return out
+        raise
+    out["outcome"] = "Conv"
     out["number"] = int(a.get_space_group_number())
     out["conv_cell"] = lst(conv.get_cell())
     out["conv_positions"] = lst(conv.get_positions())
@@ -79,23 +113,6 @@ def run_one(c):
     out["conv_letters"] = [None if x is None else str(x) for x in a.get_wyckoff_letters_conventional()]
     after = (at.get_positions(), at.get_cell().array, at.get_atomic_numbers(), at.get_pbc())
     out["input_untouched"] = bool(all(np.array_equal(x, y) for x, y in zip(before, after)))
-    # ---- intermediate data on a second analyzer object -------------------------------------------------
-    if c.get("trace", True):
-        b = SymmetryAnalyzer(atoms_of(lay), symmetry_tol=tol, min_2d_thickness=ms)
-        ds = b.get_symmetry_dataset()
-        out["transformation_matrix"] = lst(ds.transformation_matrix)
-        out["std_lattice"] = lst(ds.std_lattice)
-        spg = b._get_spglib_conventional_system()
-        letters = b._get_spglib_wyckoff_letters_conventional()
-        ideal, ideal_w = b._find_wyckoff_ground_state(int(ds.number), letters, spg)
-        ideal = ideal.copy()
-        out["ideal_cell"] = lst(ideal.get_cell())
-        out["ideal_positions"] = lst(ideal.get_positions())
-        out["ideal_numbers"] = [int(z) for z in ideal.get_atomic_numbers()]
-        ideal.set_pbc(True)
-        com = G.get_center_of_mass(ideal)
-        center = 0.5 * np.sum(ideal.get_cell(), axis=0)
-        out["translation_full"] = lst(center - com)
     # ---- the same cell analysed as a 3D crystal ----------------------------------------------------------
     if c.get("as3d", False):
         try:
